@@ -6,7 +6,7 @@ through WorkQueue / IncrementalPublisher / StreamItemQueue (W2, checks/microworl
 """
 from __future__ import annotations
 
-from sim.incremental import _walk
+from sim.incremental import _is_prefix, _walk
 from sim.oracle import Violation
 from sim.scenario import build_scenario
 from sim.tape import Tape
@@ -35,10 +35,19 @@ def protocol_violations(results, status, stats=None):
                 ok_, target_ = _walk(rr.monitor.data, pe.detail.get("path") or ())
                 if ok_ and isinstance(target_, dict):
                     pe.what = "defer_target_created_by_later_payload"
-            if (pe.rule, pe.what) in seen_pe:
+            fp = {"rule": pe.rule, "what": pe.what, "world": "W1"}
+            if pe.what in ("defer_target_not_an_object", "stream_target_not_a_list") \
+                    and isinstance(pe.detail, dict):
+                # did a fragment at an enclosing path fail? (the object may have been withheld
+                # with it: the listed lost-value finding seen from the protocol side)
+                tp = tuple(pe.detail.get("path") or ())
+                fp["enclosing_fragment_failed"] = any(
+                    _is_prefix(tuple(q["path"]), tp) for q in rr.monitor.failed.values())
+            key_ = (pe.rule, pe.what, fp.get("enclosing_fragment_failed"))
+            if key_ in seen_pe:
                 continue
-            seen_pe.add((pe.rule, pe.what))
-            vs.append(Violation(PROP, "protocol", {"rule": pe.rule, "what": pe.what, "world": "W1"},
+            seen_pe.add(key_)
+            vs.append(Violation(PROP, "protocol", fp,
                                 {"request": i, "detail": pe.detail, "payloads": rr.payloads[-4:]}))
         if not rr.ended and not rr.stopped and rr.error is None:
             mon = rr.monitor
